@@ -92,6 +92,10 @@ func Build(s *Setup, reqs []*Req, o BuildOpts) *World {
 	} else {
 		flamego.SetEnv(envs[s.Env])
 	}
+	if s.BogusEnv {
+		// "all else ignored": an invalid value must leave every environment-dependent behaviour as it is
+		defer flamego.SetEnv(flamego.EnvType([]string{"", "prod", "staging"}[s.Env%3]))
+	}
 	f := flamego.NewWithLogger(Sink{})
 	w.F = f
 	if s.Svc {
